@@ -2,6 +2,7 @@ import Bermuda.Model.Json
 import Bermuda.Model.Ops
 import Bermuda.Model.AllOps
 import Bermuda.Model.AllOps2
+import Bermuda.Model.AllOps3
 import Bermuda.Spec.C01
 open Lean Bermuda
 
@@ -308,6 +309,90 @@ def op3FromJson (j : Json) : Except String Op3 := do
       (if trendOk then .ok () else .error .other)
   | _ => return .base (← op2FromJson j)
 
+/-! ### `Op4` (request op "chain4") -/
+
+def optDateOf (j : Json) : Except String (Option Date) := optFromJson Date.fromJson j
+
+def idxValFromJson (j : Json) : Except String IdxVal := do
+  let a ← j.getArr?
+  if a.size == 0 then throw "idxval: empty"
+  match (← a[0]!.getStr?) with
+  | "date" => return .date (← Date.fromJson a[1]!)
+  | "slice" => return .slice (← optDateOf a[1]!) (← optDateOf a[2]!)
+  | "md" => return .md (← Metadata.fromJson a[1]!)
+  | "falsy" => return .falsy
+  | _ => return .junk
+
+def indexFromJson (j : Json) : Except String Index := do
+  match (← (← j.getObjVal? "kind").getStr?) with
+  | "int" => return .int (← jInt? (← j.getObjVal? "i"))
+  | "slice" => return .slice (← optInt? j "i") (← optInt? j "j") (← optInt? j "k")
+  | "tuple" => return .tuple (← (← (← j.getObjVal? "xs").getArr?).toList.mapM idxValFromJson)
+  | _ => return .noLen
+
+/-- `[quantity, unit]` with a possibly fractional quantity -/
+def qtyOf (j : Json) (k : String) : Except String (Option (Rat × String)) :=
+  match optField j k with
+  | some v => do
+    let a ← v.getArr?
+    if a.size != 2 then throw "quantity: want [q, unit]"
+    return some (← ratFromJson a[0]!, ← a[1]!.getStr?)
+  | none => .ok none
+
+def errOf : String → Err
+  | "KeyError" => .keyError | "IndexError" => .indexError | "ValueError" => .valueError
+  | "TypeError" => .typeError | _ => .other
+
+/-- the `statics_fn` of the harness: `null` = `None`; else constant values, raising `raise` for cells whose
+period starts in month `skipMonth` -/
+def staticsFnOf (j : Json) : Except String Fn.StaticsFn := do
+  if j.isNull then return none
+  let vals ← dictFromJson Val.fromJson (← j.getObjVal? "vals")
+  let skip ← optInt? j "skipMonth"
+  let e := match optField j "raise" with
+    | some (.str s) => errOf s
+    | _ => Err.keyError
+  return some fun ob => if skip == some (ob.ps.m : Int) then .error e else .ok vals
+
+def op4FromJson (j : Json) : Except String Op4 := do
+  match (← (← j.getObjVal? "op").getStr?) with
+  | "rightEdgeStatics" =>
+    return .rightEdgeStatics (← optDate? j "evaluation") (← optInt? j "res") (← Metadata.fromJson (← j.getObjVal? "md"))
+  | "arrayFullRoundTrip" =>
+    return .arrayFullRoundTrip (← (← j.getObjVal? "field").getStr?) (← optInt? j "res") (← optInt? j "evalRes")
+      (← (← j.getObjVal? "fromEnd").getBool?) (← Metadata.fromJson (← j.getObjVal? "md"))
+  | "arrayBuilderRoundTrip" =>
+    return .arrayBuilderRoundTrip (← strListJ (← j.getObjVal? "fields")) (← optInt? j "res") (← optInt? j "evalRes")
+      (← (← j.getObjVal? "fromEnd").getBool?) (← Metadata.fromJson (← j.getObjVal? "md"))
+  | "richRoundTrip" => return .richRoundTrip (← optInt? j "evalRes") (← optStrListF j "fields")
+  | "matrixOptRoundTrip" => return .matrixOptRoundTrip (← optInt? j "evalRes") (← optStrListF j "fields")
+  | "binaryRoundTrip" =>
+    let ext := match optField j "ext" with
+      | some (.str ".trib") => Codec.Ext.trib
+      | some (.str ".tribc") => Codec.Ext.tribc
+      | _ => Codec.Ext.other
+    let rflag ← match optField j "rflag" with
+      | some v => (v.getBool?).map some
+      | none => pure none
+    return .binaryRoundTrip ext (← (← j.getObjVal? "wflag").getBool?) rflag
+  | "getItemAny" => return .getItemAny (← indexFromJson (← j.getObjVal? "index"))
+  | "sliceGetItemAny" => return .sliceGetItemAny (← indexFromJson (← j.getObjVal? "index"))
+  | "makePredTriangle" =>
+    let some expRes ← qtyOf j "expRes" | throw "expRes"
+    let some evalRes ← qtyOf j "evalRes" | throw "evalRes"
+    let a : Fn.PredArgs := {
+      metas := ← (← (← j.getObjVal? "metas").getArr?).toList.mapM Metadata.fromJson,
+      minPeriod := ← Date.fromJson (← j.getObjVal? "minPeriod"), maxPeriod := ← Date.fromJson (← j.getObjVal? "maxPeriod"),
+      expRes := expRes, evalRes := evalRes, expOrigin := ← optDate? j "expOrigin",
+      minDevLag := ← qtyOf j "minDevLag", maxDevLag := ← qtyOf j "maxDevLag",
+      minEval := ← optDate? j "minEval", maxEval := ← optDate? j "maxEval",
+      isIncremental := ← (← j.getObjVal? "inc").getBool? }
+    return .makePredTriangle a (← staticsFnOf (← j.getObjVal? "statics"))
+  | "makePredTriangleComplement" =>
+    return .makePredTriangleComplement { staticFields := ← optStrListF j "staticFields", maxDevLag := ← optRatF j "maxDevLag",
+                                         evalResOverride := ← optInt? j "evalResOverride" }
+  | _ => return .base (← op3FromJson j)
+
 /-- Spec verdicts on an implementation output (absent when the implementation raised) -/
 def specJson (j : Json) : Except String Json := do
   match j.getObjVal? "impl" with
@@ -349,6 +434,22 @@ def handle (j : Json) : Except String Json := do
   | "cellAt" =>
     let cells ← cellsFromJson (← j.getObjVal? "cells")
     return Json.mkObj [("model", exceptToJson Cell.toJson (Fn.cellAt cells (← jInt? (← j.getObjVal? "i"))))]
+  | "chain4" =>
+    let cells ← cellsFromJson (← j.getObjVal? "cells")
+    let ops ← (← (← j.getObjVal? "ops").getArr?).toList.mapM op4FromJson
+    let r := match Triangle.ofCells cells with
+      | .ok t => run4 t ops
+      | .error e => .error e
+    return Json.mkObj [("model", exceptToJson cellsToJson r), ("spec", ← specJson j)]
+  | "item" =>
+    -- `t[index]` / `triangle_to_slice(t)[index]`: the returned object itself (triangle or cell)
+    let cells ← cellsFromJson (← j.getObjVal? "cells")
+    let idx ← indexFromJson (← j.getObjVal? "index")
+    let r := if (← (← j.getObjVal? "slice").getBool?) then Fn.sliceGetItemAny cells idx else Triangle.getItemAny cells idx
+    let enc : List Cell ⊕ Cell → Json
+      | .inl t => Json.mkObj [("tri", cellsToJson t)]
+      | .inr c => Json.mkObj [("cell", c.toJson)]
+    return Json.mkObj [("model", exceptToJson enc r)]
   | "chain3" =>
     let cells ← cellsFromJson (← j.getObjVal? "cells")
     let ops ← (← (← j.getObjVal? "ops").getArr?).toList.mapM op3FromJson
